@@ -157,6 +157,7 @@ def c13_4(ctx, r):
                                 f"reset of Job.{t.attr} only for selected names", key_of(pf, f"reset {t.attr} unguarded"), pf.loc(n),
                                 f"Job.{t.attr} is reset for jobs that are not being resubmitted (their recorded outcome is discarded)",
                                 guards=sorted(f for f, p in forms))
+    reset_restores_blockers(ctx, r, pf)
     # the reset visits every job (a selected job may be in any state: a missing job of a killed batch is still 'submitted')
     rl = [n for n in iter_own(pf.node) if isinstance(n, ast.For) and any(isinstance(x, ast.Assign) and any(isinstance(t, ast.Attribute) and t.attr == "state" for t in x.targets) for x in ast.walk(n))]
     if len(rl) != 1:
@@ -180,6 +181,24 @@ def c13_4(ctx, r):
             forms = guard_forms(ctx, pf, node, ALL_KINDS, kill=False)
             r.check(("<ClusterConfig.is_complete>", True) in forms, "is_complete cleared only after asserting it was set", key_of(pf, "clear is_complete"), pf.loc(node.ast),
                     "prepare_for_resubmission clears is_complete without asserting completeness")
+
+
+def reset_restores_blockers(ctx, r, pf):
+    """Every `job.state = NOT_SUBMITTED` of the reset is paired, in the same block, with restoring the job's
+    remaining blockers from the closure's mapping: the old set was emptied when the job was submitted."""
+    n_st = 0
+    for n in iter_own(pf.node):
+        if isinstance(n, ast.Assign) and any(isinstance(t, ast.Attribute) and t.attr == "state" for t in n.targets) and ctx.src(n.value) == "JobState.NOT_SUBMITTED":
+            n_st += 1
+            par = ctx.parents(pf).get(id(n))
+            blk = next((getattr(par, f) for f in ("body", "orelse") if isinstance(getattr(par, f, None), list) and n in getattr(par, f)), [])
+            recv = ctx.src(n.targets[0].value)
+            paired = any(isinstance(x, ast.Assign) and ctx.src(x.targets[0]) == f"{recv}.blocked_by" and "updated_blocking_jobs_by_name" in ctx.src(x.value) for x in blk)
+            r.check(paired, "a job set back to not_submitted gets its remaining blockers restored in the same block", key_of(pf, "state reset without blockers restore"), pf.loc(n),
+                    f"`{ctx.src(n)}` is not paired with restoring {recv}.blocked_by: a resubmitted job that had been submitted (its blocker set was emptied then) comes back with no blockers "
+                    "and is started before the jobs it depends on have outcomes", "each once and in dependency order")
+    if n_st == 0:
+        raise AnalysisError("C13.4", "no reset of Job.state to NOT_SUBMITTED found")
 
 
 @rule(P, "C13.5", "T14", "the dependent-closure loop stops early only on a fixpoint and is bounded by the number of jobs", min_obligations=3)
